@@ -25,6 +25,9 @@ use soroban_sdk::{Address, BytesN, Env, IntoVal, Symbol, Val, Vec as SVec};
 use std::rc::Rc;
 
 struct Ep {
+    /// false: the call is not valid for anybody in this state (e.g. no allowance was granted):
+    /// even the named address's own authorisation must not make it succeed
+    valid: bool,
     name: &'static str,
     named: Address,
     counterparty: Option<Address>,
@@ -36,7 +39,7 @@ struct Ep {
 const GROUPS: [&str; 6] = ["token", "gas-service", "gateway", "its", "operators", "example"];
 
 fn matrix(rep: &mut Report, u: &mut U, ep: &Ep, stranger: &Address, state: &str) {
-    let mut cands: Vec<(&str, Auth, bool)> = vec![("named-address", Auth::Only(vec![ep.named.clone()]), true)];
+    let mut cands: Vec<(&str, Auth, bool)> = vec![("named-address", Auth::Only(vec![ep.named.clone()]), ep.valid)];
     if let Some(c) = &ep.counterparty {
         if *c != ep.named {
             cands.push(("counterparty", Auth::AllBy(c.clone()), false));
@@ -83,7 +86,9 @@ fn matrix(rep: &mut Report, u: &mut U, ep: &Ep, stranger: &Address, state: &str)
             continue;
         }
         if o.ok() != must_ok {
-            if o.ok() {
+            if o.ok() && !ep.valid && class == "named-address" {
+                rep.violation(&format!("acted-without-allowance:{}", ep.name), format!("{} ({}) moved another address's funds although that address never allowed it", ep.name, state));
+            } else if o.ok() {
                 rep.violation(&format!("acted-without-named-address:{}:{}", class, ep.name), format!("{} ({}) succeeded when authorised only by: {}", ep.name, state, class));
             } else {
                 rep.violation(&format!("named-address-refused:{}", ep.name), format!("{} ({}) failed with exactly the named address's authorisation: {:?}", ep.name, state, o.res));
@@ -161,28 +166,48 @@ pub fn run(ctx: &Ctx, rep: &mut Report) {
                 };
                 let (a1, b1, c1, m1) = (a.clone(), b.clone(), c.clone(), minter.clone());
                 let eps = vec![
-                    Ep { name: "token.approve", named: a.clone(), counterparty: Some(c.clone()), owner: Some(owner.clone()),
+                    Ep { valid: true, name: "token.approve", named: a.clone(), counterparty: Some(c.clone()), owner: Some(owner.clone()),
                          call: { let (x, y) = (a1.clone(), c1.clone()); mk(Rc::new(move |cl, _| flat(cl.try_approve(&x, &y, &50, &exp)))) },
                          other_args: Some({ let (x, y) = (a1.clone(), c1.clone()); mk(Rc::new(move |cl, _| flat(cl.try_approve(&x, &y, &51, &exp)))) }) },
-                    Ep { name: "token.transfer", named: a.clone(), counterparty: Some(c.clone()), owner: Some(owner.clone()),
+                    Ep { valid: true, name: "token.transfer", named: a.clone(), counterparty: Some(c.clone()), owner: Some(owner.clone()),
                          call: { let (x, y) = (a1.clone(), c1.clone()); mk(Rc::new(move |cl, _| flat(cl.try_transfer(&x, &y, &10)))) },
                          other_args: Some({ let (x, y) = (a1.clone(), c1.clone()); mk(Rc::new(move |cl, _| flat(cl.try_transfer(&x, &y, &11)))) }) },
-                    Ep { name: "token.transfer_from", named: b.clone(), counterparty: Some(a.clone()), owner: Some(owner.clone()),
+                    Ep { valid: true, name: "token.transfer_from", named: b.clone(), counterparty: Some(a.clone()), owner: Some(owner.clone()),
                          call: { let (s, f, to) = (b1.clone(), a1.clone(), c1.clone()); mk(Rc::new(move |cl, _| flat(cl.try_transfer_from(&s, &f, &to, &10)))) },
                          other_args: Some({ let (s, f, to) = (b1.clone(), a1.clone(), c1.clone()); mk(Rc::new(move |cl, _| flat(cl.try_transfer_from(&s, &f, &to, &11)))) }) },
-                    Ep { name: "token.burn", named: a.clone(), counterparty: None, owner: Some(owner.clone()),
+                    Ep { valid: true, name: "token.burn", named: a.clone(), counterparty: None, owner: Some(owner.clone()),
                          call: { let x = a1.clone(); mk(Rc::new(move |cl, _| flat(cl.try_burn(&x, &10)))) },
                          other_args: Some({ let x = a1.clone(); mk(Rc::new(move |cl, _| flat(cl.try_burn(&x, &11)))) }) },
-                    Ep { name: "token.burn_from", named: b.clone(), counterparty: Some(a.clone()), owner: Some(owner.clone()),
+                    Ep { valid: true, name: "token.burn_from", named: b.clone(), counterparty: Some(a.clone()), owner: Some(owner.clone()),
                          call: { let (s, f) = (b1.clone(), a1.clone()); mk(Rc::new(move |cl, _| flat(cl.try_burn_from(&s, &f, &10)))) },
                          other_args: Some({ let (s, f) = (b1.clone(), a1.clone()); mk(Rc::new(move |cl, _| flat(cl.try_burn_from(&s, &f, &11)))) }) },
-                    Ep { name: "token.mint_from", named: minter.clone(), counterparty: Some(c.clone()), owner: Some(owner.clone()),
+                    Ep { valid: true, name: "token.mint_from", named: minter.clone(), counterparty: Some(c.clone()), owner: Some(owner.clone()),
                          call: { let (m, to) = (m1.clone(), c1.clone()); mk(Rc::new(move |cl, _| flat(cl.try_mint_from(&m, &to, &10)))) },
                          other_args: Some({ let (m, to) = (m1.clone(), c1.clone()); mk(Rc::new(move |cl, _| flat(cl.try_mint_from(&m, &to, &11)))) }) },
                 ];
                 for ep in &eps {
                     matrix(rep, &mut u, ep, &stranger, "with-allowance");
                 }
+                // states without an allowance: nobody's authorisation may move the owner's funds,
+                // whoever the recipient is (the spender itself, the owner of the funds, a third party)
+                let (v1, x1) = (a.clone(), c.clone());
+                let no_allow = vec![
+                    Ep { valid: false, name: "token.transfer_from", named: c.clone(), counterparty: Some(a.clone()), owner: Some(owner.clone()),
+                         call: { let (s, f) = (x1.clone(), v1.clone()); mk(Rc::new(move |cl, _| flat(cl.try_transfer_from(&s, &f, &s, &10)))) }, other_args: None },
+                    Ep { valid: false, name: "token.transfer_from", named: c.clone(), counterparty: Some(a.clone()), owner: Some(owner.clone()),
+                         call: { let (s, f) = (x1.clone(), v1.clone()); mk(Rc::new(move |cl, _| flat(cl.try_transfer_from(&s, &f, &f, &10)))) }, other_args: None },
+                    Ep { valid: false, name: "token.transfer_from", named: c.clone(), counterparty: Some(a.clone()), owner: Some(owner.clone()),
+                         call: { let (s, f, t3) = (x1.clone(), v1.clone(), b1.clone()); mk(Rc::new(move |cl, _| flat(cl.try_transfer_from(&s, &f, &t3, &10)))) }, other_args: None },
+                    Ep { valid: false, name: "token.burn_from", named: c.clone(), counterparty: Some(a.clone()), owner: Some(owner.clone()),
+                         call: { let (s, f) = (x1.clone(), v1.clone()); mk(Rc::new(move |cl, _| flat(cl.try_burn_from(&s, &f, &10)))) }, other_args: None },
+                ];
+                for (i, ep) in no_allow.iter().enumerate() {
+                    matrix(rep, &mut u, ep, &stranger, ["no-allowance,recipient=spender", "no-allowance,recipient=owner-of-funds", "no-allowance,recipient=third-party", "no-allowance"][i]);
+                }
+                // the allowance granted to b (300) must not be exceeded either, even when b is the recipient
+                let over = Ep { valid: false, name: "token.transfer_from", named: b.clone(), counterparty: Some(a.clone()), owner: Some(owner.clone()),
+                                call: { let (s, f) = (b1.clone(), a1.clone()); mk(Rc::new(move |cl, _| flat(cl.try_transfer_from(&s, &f, &s, &301)))) }, other_args: None };
+                matrix(rep, &mut u, &over, &stranger, "allowance-exceeded,recipient=spender");
                 // contract-as-caller
                 let cc = c.clone();
                 proxy_variant(rep, &mut u, "token.transfer", &proxy, &tk, "transfer", &|env, n| (n.clone(), cc.clone(), 5i128).into_val(env), &a);
@@ -217,8 +242,8 @@ pub fn run(ctx: &Ctx, rep: &mut Report) {
                         })
                     };
                     let eps = vec![
-                        Ep { name: "gas-service.pay_gas", named: spender.clone(), counterparty: Some(app.clone()), owner: Some(owner.clone()), call: mk(10, false), other_args: Some(mk(11, false)) },
-                        Ep { name: "gas-service.add_gas", named: spender.clone(), counterparty: Some(collector.clone()), owner: Some(owner.clone()), call: mk(10, true), other_args: Some(mk(11, true)) },
+                        Ep { valid: true, name: "gas-service.pay_gas", named: spender.clone(), counterparty: Some(app.clone()), owner: Some(owner.clone()), call: mk(10, false), other_args: Some(mk(11, false)) },
+                        Ep { valid: true, name: "gas-service.add_gas", named: spender.clone(), counterparty: Some(collector.clone()), owner: Some(owner.clone()), call: mk(10, true), other_args: Some(mk(11, true)) },
                     ];
                     for ep in &eps {
                         matrix(rep, &mut u, ep, &stranger, if kind == TokKind::Sac { "asset-contract" } else { "interchain-token" });
@@ -257,8 +282,8 @@ pub fn run(ctx: &Ctx, rep: &mut Report) {
                 let mut m_other = m.clone();
                 m_other.payload_hash[0] ^= 1;
                 let eps = vec![
-                    Ep { name: "gateway.call_contract", named: caller.clone(), counterparty: None, owner: Some(owner.clone()), call: mk_call(b"payload-1"), other_args: Some(mk_call(b"payload-2")) },
-                    Ep { name: "gateway.validate_message", named: caller.clone(), counterparty: Some(operator.clone()), owner: Some(owner.clone()), call: mk_val(m.clone()), other_args: Some(mk_val(m_other)) },
+                    Ep { valid: true, name: "gateway.call_contract", named: caller.clone(), counterparty: None, owner: Some(owner.clone()), call: mk_call(b"payload-1"), other_args: Some(mk_call(b"payload-2")) },
+                    Ep { valid: true, name: "gateway.validate_message", named: caller.clone(), counterparty: Some(operator.clone()), owner: Some(owner.clone()), call: mk_val(m.clone()), other_args: Some(mk_val(m_other)) },
                 ];
                 for ep in &eps {
                     matrix(rep, &mut u, ep, &stranger, "approved");
@@ -343,10 +368,10 @@ pub fn run(ctx: &Ctx, rep: &mut Report) {
                 };
                 let owner = w.owner.clone();
                 let eps = vec![
-                    Ep { name: "its.deploy_interchain_token", named: caller.clone(), counterparty: Some(other_user.clone()), owner: Some(owner.clone()), call: mk_deploy(salt2), other_args: Some(mk_deploy(salt3)) },
-                    Ep { name: "its.deploy_remote_interchain_token", named: caller.clone(), counterparty: Some(other_user.clone()), owner: Some(owner.clone()), call: mk_remote(3), other_args: Some(mk_remote(4)) },
-                    Ep { name: "its.deploy_remote_canonical_token", named: payer.clone(), counterparty: Some(caller.clone()), owner: Some(owner.clone()), call: mk_canon(3), other_args: Some(mk_canon(4)) },
-                    Ep { name: "its.interchain_transfer", named: caller.clone(), counterparty: Some(other_user.clone()), owner: Some(owner.clone()), call: mk_transfer(10), other_args: Some(mk_transfer(11)) },
+                    Ep { valid: true, name: "its.deploy_interchain_token", named: caller.clone(), counterparty: Some(other_user.clone()), owner: Some(owner.clone()), call: mk_deploy(salt2), other_args: Some(mk_deploy(salt3)) },
+                    Ep { valid: true, name: "its.deploy_remote_interchain_token", named: caller.clone(), counterparty: Some(other_user.clone()), owner: Some(owner.clone()), call: mk_remote(3), other_args: Some(mk_remote(4)) },
+                    Ep { valid: true, name: "its.deploy_remote_canonical_token", named: payer.clone(), counterparty: Some(caller.clone()), owner: Some(owner.clone()), call: mk_canon(3), other_args: Some(mk_canon(4)) },
+                    Ep { valid: true, name: "its.interchain_transfer", named: caller.clone(), counterparty: Some(other_user.clone()), owner: Some(owner.clone()), call: mk_transfer(10), other_args: Some(mk_transfer(11)) },
                 ];
                 let stranger = w.stranger.clone();
                 for ep in &eps {
@@ -377,7 +402,7 @@ pub fn run(ctx: &Ctx, rep: &mut Report) {
                         flat(AxelarOperatorsClient::new(env, &o2).try_execute(&p2, &t2, &Symbol::new(env, "f1"), &a)).map(|_| ())
                     })
                 };
-                let ep = Ep { name: "operators.execute", named: op.clone(), counterparty: Some(target.clone()), owner: Some(owner.clone()), call: mk(1), other_args: Some(mk(2)) };
+                let ep = Ep { valid: true, name: "operators.execute", named: op.clone(), counterparty: Some(target.clone()), owner: Some(owner.clone()), call: mk(1), other_args: Some(mk(2)) };
                 matrix(rep, &mut u, &ep, &stranger, "member");
                 let t2 = target.clone();
                 proxy_variant(rep, &mut u, "operators.execute", &proxy, &oc, "execute", &|env, n| {
@@ -404,7 +429,7 @@ pub fn run(ctx: &Ctx, rep: &mut Report) {
                     let (e, c, t) = (ex.clone(), caller.clone(), tok.addr.clone());
                     Rc::new(move |env: &Env| flat(ExampleClient::new(env, &e).try_send(&c, &sstr(env, b"dest"), &sstr(env, b"0xd"), &sbytes(env, b"hello"), &Token { address: t.clone(), amount })))
                 };
-                let ep = Ep { name: "example.send", named: caller.clone(), counterparty: Some(operator.clone()), owner: Some(owner.clone()), call: mk(5), other_args: Some(mk(6)) };
+                let ep = Ep { valid: true, name: "example.send", named: caller.clone(), counterparty: Some(operator.clone()), owner: Some(owner.clone()), call: mk(5), other_args: Some(mk(6)) };
                 matrix(rep, &mut u, &ep, &stranger, "funded");
             }
         }
@@ -422,5 +447,5 @@ pub fn run(ctx: &Ctx, rep: &mut Report) {
         req.push(format!("ep:{}", e));
     }
     rep.notes.insert("required".into(), json!(req));
-    rep.notes.insert("rule".into(), json!("finite matrix enumerated completely: 16 entry points that debit, burn, pay gas from, send as, consume for, deploy under the name of or execute as an address named in the arguments x authorisers {the named address, the counterparty (recipient / owner of the funds in a delegated call / application), the contract owner, a stranger, nobody, everyone the code asked except the named address, the named address for other arguments}, in states where the call is otherwise valid (allowances granted, balances funded, messages approved, tokens registered); plus the contract-as-caller variant through a forwarding proxy (the named address is the calling contract => accepted without entries; another address => refused). Only the named address's exact authorisation may succeed; refused calls are diffed against the pre-state. distinct = (entry point, state, authoriser, outcome)"));
+    rep.notes.insert("rule".into(), json!("finite matrix enumerated completely: 16 entry points that debit, burn, pay gas from, send as, consume for, deploy under the name of or execute as an address named in the arguments x authorisers {the named address, the counterparty (recipient / owner of the funds in a delegated call / application), the contract owner, a stranger, nobody, everyone the code asked except the named address, the named address for other arguments}, in states where the call is otherwise valid (allowances granted, balances funded, messages approved, tokens registered), and for delegated transfers/burns also in states without (or beyond) an allowance with the spender, the owner of the funds or a third party as recipient, where nobody's authorisation may succeed; plus the contract-as-caller variant through a forwarding proxy (the named address is the calling contract => accepted without entries; another address => refused). Only the named address's exact authorisation may succeed; refused calls are diffed against the pre-state. distinct = (entry point, state, authoriser, outcome)"));
 }
